@@ -402,19 +402,21 @@ def run(ctx: Ctx):
         raise AnchorMissing(f"scheduleSlot milestone branch: {cnt} writing blocks found, expected 4")
     fdp = ctx.dep.of(sscen)
     cnt = 0
-    for nd in own_nodes(sscen):
-        if isinstance(nd, ast.If) and "is_explicit_milestone" in norm(nd.test):
-            for s in ast.walk(nd):
-                if isinstance(s, ast.Assign):
-                    w = wr([s])
-                    for k, st in w.items():
-                        other = "start" if k == "end" else "end"
-                        d = data(fdp.deps_of(st.value))
-                        ok = f"pattr:{other}" in d and f"pattr:{k}" not in d
-                        cnt += 1
-                        ctx.ob("R06.3", f"{sscen.qual}: pre-pass {k} := {norm(st.value)}", (sscen, st), ok,
-                               f"{k} receives the pinned {other}" if ok else f"milestone pre-pass sets {k} to something other than the pinned {other}",
-                               key=key_of("R06.3", sscen, st))
+    # every write of a start / end date in scheduleScenario (the pre-pass over dated milestones, whatever its nesting): the missing
+    # date receives the pinned one, and the write is control dependent on the milestone test
+    for k in ("start", "end"):
+        other = "start" if k == "end" else "end"
+        for atoms, node, sc, tgt in pattr_writes(ctx, sscen, k):
+            st = node.ast
+            if not isinstance(st, ast.Assign):
+                continue
+            d = data(fdp.deps_of(st.value))
+            ctl = {a.lstrip("~") for a in fdp.ctl_atoms(node)}
+            ok = f"pattr:{other}" in d and f"pattr:{k}" not in d and "pattr:milestone" in ctl
+            cnt += 1
+            ctx.ob("R06.3", f"{sscen.qual}: pre-pass {k} := {norm(st.value)}", (sscen, st), ok,
+                   f"{k} receives the pinned {other}" if ok else f"milestone pre-pass sets {k} to something other than the pinned {other}",
+                   key=key_of("R06.3", sscen, st))
     if cnt < 2:
         raise AnchorMissing("scheduleScenario milestone pre-pass writes not found")
 
